@@ -97,6 +97,7 @@ struct FamilySpec {
         if (kind == "density") s += ":rep=" + std::to_string(rep) + ":w=" + std::to_string(width) + ":word=" + std::to_string(word) + ":seam=" + std::to_string(seam) + (top ? ":top=" + std::to_string(top) : "");
         else if (kind == "chunktail") s += ":rep=" + std::to_string(rep) + ":w=" + std::to_string(width) + ":word=" + std::to_string(word);
         else if (kind == "longrun") s += ":n=" + std::to_string(n) + ":seam=" + std::to_string(seam) + ":rep=" + std::to_string(rep) + ":w=" + std::to_string(width) + ":word=" + std::to_string(word);
+        else if (kind == "capacity") s += ":rep=" + std::to_string(rep) + ":n=" + std::to_string(n) + ":word=" + std::to_string(word);
         else if (kind == "span") s += ":rep=" + std::to_string(rep) + ":w=" + std::to_string(width) + ":word=" + std::to_string(word);
         else if (kind == "seam") s += ":n=" + std::to_string(n) + ":seam=" + std::to_string(seam) + ":w=" + std::to_string(width) + ":word=" + std::to_string(word);
         else { s += ":rep=" + std::to_string(rep) + ":b="; for (size_t i = 0; i < blocks.size(); ++i) s += (i ? "." : "") + std::to_string(blocks[i]); }
@@ -234,6 +235,21 @@ template<typename K> bool generate_family(const FamilySpec &f, size_t eps, std::
             W far = cur * 450 > (W(3) << 30) ? cur * 450 : (W(3) << 30);
             for (int j = 0; j < 15; ++j) { keys.push_back(far + W(j) * 50000000); focus.push_back(keys.size() - 1); }
             cur = keys.back();
+        }
+        if (cur > hi) return false;
+    } else if (f.kind == "capacity") {
+        // `rep` clusters of `n` (default eps^2 + 1) consecutive keys, one bottom segment each, so that the number of segments sits just
+        // below n / eps^2 (what PGMIndex::build reserves for its segment array): the array then has to grow while an upper level is
+        // being built. The gap after a cluster changes every three clusters following a hash of `word`, which keeps upper-level
+        // segments short.
+        long alpha = f.n > 0 ? f.n : long(eps * eps + 1); W cur = 1000;
+        const W mult[4] = {1, 9, 80, 700};
+        for (long c = 0; c < f.rep; ++c) {
+            size_t first_pos = keys.size();
+            for (long j = 0; j < alpha; ++j) { cur += 1; keys.push_back(cur); }
+            uint32_t h = uint32_t((c / 3 + f.word) * 2654435761u) >> 13;
+            cur += 10 * alpha * mult[h & 3];
+            if (f.rep <= 64 || c < 3 || c + 3 >= f.rep || c % 11 == 0) { focus.push_back(first_pos); focus.push_back(first_pos + size_t(alpha) - 1); }
         }
         if (cur > hi) return false;
     } else if (f.kind == "span") {
